@@ -192,6 +192,12 @@ def text_check(records, spec, case, viol):
     kw = {}
     if spec is not None:
         kw["format_spec"] = spec
+        real0 = spec.replace("\\r", "\r").replace("\\n", "\n").replace("\\t", "\t")
+        for r in records:
+            try:
+                real0.format_map(_DM({k: getattr(r, k) for k in r.__slots__}))
+            except Exception:  # noqa: BLE001  the template itself is not applicable to this record (e.g. [0] of an empty value)
+                return "spec-not-applicable"
     try:
         try:
             w = RecordWriter("text://" + p, **kw)
@@ -211,7 +217,10 @@ def text_check(records, spec, case, viol):
                 s = "<%s %s>" % (r._desc.name, " ".join("%s=%r" % (fn, getattr(r, fn)) for _, fn in r._desc.get_field_tuples()))
             else:
                 real = spec.replace("\\r", "\r").replace("\\n", "\n").replace("\\t", "\t")
-                s = real.format_map(_DM({k: getattr(r, k) for k in r.__slots__}))
+                try:
+                    s = real.format_map(_DM({k: getattr(r, k) for k in r.__slots__}))
+                except Exception:  # noqa: BLE001  the template itself is not applicable to this record (e.g. [0] of an empty value)
+                    return "spec-not-applicable"
             want += s.encode("utf-8", "surrogateescape") + b"\n"
         if data != want:
             viol.append(("C20:text:output-differs:%s" % ("repr" if spec is None else "spec"), case, {"got": repr(data[:120]), "want": repr(want[:120]), "options": kw}))
@@ -292,7 +301,8 @@ def run_case(case):
         csv_opts += [([names0[0]], None, None), (names0[::-1], None, "\\n"), (None, [names0[0]], "\\r\\n"), (names0 + ["zz"], ["_generated"], "\n"),
                      (["_source", names0[-1]], [names0[-1]], None), (None, ["_source", "_classification", "_generated", "_version"], "\\r")]
         line_opts += [([names0[0]], None, False), (None, [names0[0]], True), (names0 + ["zz"], ["_version"], False)]
-        specs += ["{%s}" % names0[0], "{%s}-{%s}" % (names0[0], names0[-1]), "{zz}", "{%s!r}" % names0[0], "a\\t{%s}\\n" % names0[0], "{_source}|{%s}" % names0[-1]]
+        specs += ["{%s}" % names0[0], "{%s}-{%s}" % (names0[0], names0[-1]), "{zz}", "{%s!r}" % names0[0], "a\\t{%s}\\n" % names0[0], "{_source}|{%s}" % names0[-1],
+                  "{%s.real}/{%s[0]}" % (names0[-1], names0[0]), "{%s[0]}" % names0[0], "{_generated.year}-{%s.imag}" % names0[-1], "{%s.denominator:>4}" % names0[-1]]
     for f, x, lt in csv_opts:
         n += 1
         outs.append("csv:" + csv_check(records, f, x, lt, case, viol))
